@@ -57,6 +57,8 @@ def gen(rng, idx, tier, seed):
         })
     ncom = int(rng.integers(0, 9))
     return {'nrec': nrec, 'vars': vars_, 'seed': int(rng.integers(1 << 30)),
+            'tpos': int(rng.integers(0, nvar + 1)) if rng.random() < 0.4
+            else 0,
             'comments': [str(x) for x in rng.permutation(COMMENTS)[:ncom]],
             'time_interval': int(rng.choice([1, 10, 60]))}
 
@@ -67,11 +69,19 @@ def build(spec):
     f = pnc.PseudoNetCDFFile()
     n = spec['nrec']
     f.createDimension('POINTS', n)
-    t = f.createVariable('Start_UTC', 'd', ('POINTS',))
-    t.units = 'seconds'
-    t.standard_name = 'Start_UTC'
-    t[:] = 36000.0 + spec['time_interval'] * np.arange(n)
-    for vs in spec['vars']:
+    def add_time():
+        t = f.createVariable('Start_UTC', 'd', ('POINTS',))
+        t.units = 'seconds'
+        t.standard_name = 'Start_UTC'
+        t[:] = 36000.0 + spec['time_interval'] * np.arange(n)
+    # the independent variable need not be the first one defined (hand-built
+    # or netCDF-derived files)
+    tpos = spec.get('tpos', 0)
+    for vi, vs in enumerate(spec['vars'] + [None]):
+        if vi == tpos:
+            add_time()
+        if vs is None:
+            break
         vals = rng.normal(0, 1, n) * vs['mag']
         if vs['boundary']:
             # values that sit on the rounding boundary of the 7th digit
@@ -126,7 +136,9 @@ def sig7(a, b):
 
 def compare(before, after, indep, who, strict_indep_units=False):
     p = []
-    kb = list(before)
+    # the format puts the independent variable in the first column: the
+    # order of the DEPENDENT variables is what can be preserved
+    kb = [indep] + [k for k in before if k != indep]
     ka = list(after)
     if kb != ka:
         p.append('%s: variable names/order %s -> %s' % (who, kb, ka))
